@@ -125,49 +125,60 @@ def run_case(case, tmp):
         def wrap(self, value):
             return App(self.ident, value)
 
-    # user subclasses of the two dictionary composites, with callbacks, state and a data hook of their own: the library
-    # must keep the very objects it was given in the tree (their own events are counted, not part of the model's log)
+    # user subclasses of the two dictionary composites, with callbacks, a state and a data hook of their own: the library
+    # must keep the very objects it was given in the tree.  Their callbacks and state are part of the log (the model has
+    # them as a pseudo-child of the composite, visited after the real children); the data hook is counted here.
     comp = []
+    NSELF = 1008
 
-    class CountMixin:
-        def _c(self, k):
-            self.counts[k] = self.counts.get(k, 0) + 1
-
+    class SelfMixin:
         def setup(self):
-            self._c("setup"); super().setup()
+            super().setup(); log.append(["setup", self.ident])
 
         def teardown(self):
-            self._c("teardown"); super().teardown()
+            super().teardown(); log.append(["teardown", self.ident])
 
         def on_paused(self):
-            self._c("paused"); super().on_paused()
+            super().on_paused(); log.append(["paused", self.ident])
 
         def on_resumed(self):
-            self._c("resumed"); super().on_resumed()
+            super().on_resumed(); log.append(["resumed", self.ident])
 
         def save_state(self, path):
-            self._c("save"); super().save_state(path)
+            super().save_state(path)
+            log.append(["save", self.ident, rel(path) + [NSELF]])
+            (Path(path) / "self.own").write_text(str(self.ident))
 
         def load_state(self, path):
-            self._c("load"); super().load_state(path)
+            super().load_state(path)
+            log.append(["load", self.ident, rel(path) + [NSELF]])
+            try:
+                if (Path(path) / "self.own").read_text() != str(self.ident):
+                    state["own"] = False
+            except OSError:
+                state["own"] = False
 
-    class CSensorsDict(CountMixin, SensorsDict):
-        def __init__(self, d):
+    class CSensorsDict(SelfMixin, SensorsDict):
+        def __init__(self, d, ident):
             super().__init__(d)
-            self.counts = {}
+            self.ident = ident
+            self.data_calls = 0
             comp.append(self)
 
         def read(self):
-            self._c("data"); return super().read()
+            self.data_calls += 1
+            return super().read()
 
-    class CActuatorsDict(CountMixin, ActuatorsDict):
-        def __init__(self, d):
+    class CActuatorsDict(SelfMixin, ActuatorsDict):
+        def __init__(self, d, ident):
             super().__init__(d)
-            self.counts = {}
+            self.ident = ident
+            self.data_calls = 0
             comp.append(self)
 
         def operate(self, action):
-            self._c("data"); super().operate(action)
+            self.data_calls += 1
+            super().operate(action)
 
     def wrapper(s):
         if s["t"] == "wobj":
@@ -179,14 +190,14 @@ def run_case(case, tmp):
         if s["t"] == "sensor":
             return RSensor(s["id"])
         if s["t"] == "sdict":
-            return CSensorsDict({str(k): sensor(c) for k, c in s["children"]})
+            return CSensorsDict({str(k): sensor(c) for k, c in s["children"]}, s["sid"])
         return SensorWrapper(sensor(s["sensor"]), wrapper(s["wrapper"]))
 
     def actuator(s):
         if s["t"] == "actuator":
             return RActuator(s["id"])
         if s["t"] == "adict":
-            return CActuatorsDict({str(k): actuator(c) for k, c in s["children"]})
+            return CActuatorsDict({str(k): actuator(c) for k, c in s["children"]}, s["sid"])
         return ActuatorWrapper(actuator(s["actuator"]), wrapper(s["wrapper"]))
 
     def env(s):
@@ -237,7 +248,7 @@ def run_case(case, tmp):
         return {"error": f"{type(e).__name__}: {e}", "tb": traceback.format_exc()[-800:]}
     return {"events": [events[k] for k in ["setup", "teardown", "paused", "resumed", "attach_models", "attach_collectors"]],
             "saved": saved, "loaded": loaded, "own": state["own"], "ok": ok, "obs": obs, "delivered": delivered,
-            "composites": [c.counts for c in comp]}
+            "composites": [c.data_calls for c in comp]}
 
 
 def main():
